@@ -47,11 +47,30 @@ _NEWTYPES: dict[str, Any] = {}
 
 # types served by a user supplied loader (spec/Load.tla "user"): loader(UserInt, int)
 USER_TYPES = {"int": typing.NewType("UserInt", int), "int early": type("AUser", (), {"__module__": "a"})}
+# the configurable date providers are routed to types of their own: the loader / dumper that the provider itself makes for
+# datetime / date is attached to a NewType (a provider bound to a NewType is not asked: the NewType is unwrapped first)
+PROVIDER_TYPES = {"datetime_ts": typing.NewType("DatetimeTs", dtm.datetime), "date_ts": typing.NewType("DateTs", dtm.date),
+                  "datetime_fmt": typing.NewType("DatetimeFmt", dtm.datetime)}
+SCALAR_HINT.update(PROVIDER_TYPES)
+
+
+_RECIPE: list = []
 
 
 def user_recipe() -> list:
-    from adaptix import loader
-    return [loader(USER_TYPES["int"], int), loader(USER_TYPES["int early"], int)]
+    if not _RECIPE:
+        _RECIPE.extend(_user_recipe())
+    return list(_RECIPE)
+
+
+def _user_recipe() -> list:
+    from adaptix import Retort, date_by_timestamp, datetime_by_format, datetime_by_timestamp, dumper, loader
+    out = [loader(USER_TYPES["int"], int), loader(USER_TYPES["int early"], int)]
+    for kind, prov, base in (("datetime_ts", datetime_by_timestamp(), dtm.datetime), ("date_ts", date_by_timestamp(), dtm.date),
+                             ("datetime_fmt", datetime_by_format(fmt=univ.TS_FORMAT), dtm.datetime)):
+        helper = Retort(recipe=[prov])
+        out += [loader(PROVIDER_TYPES[kind], helper.get_loader(base)), dumper(PROVIDER_TYPES[kind], helper.get_dumper(base))]
+    return out
 
 
 def has_user(T: dict) -> bool:
